@@ -23,6 +23,20 @@ T2 (every run):
       .as_revision_id(b) — is answered by the real code and by the Lean model
       (`vd_C22`) and compared textually.  ~10 % of the specifier strings are
       random mutations of valid ones (malformed stream).
+  (c) the same histories as STACKING CHAINS of real 2a branches, each with its own repository (base0 <- base1 <-
+      main, one or two levels, stacking points anywhere on the mainline, also unstacked and "freshly stacked"
+      layouts in which a repository holds nothing of the mainline), opened locally (repository with fallbacks) and
+      through breezy's own smart server (SmartTCPServer on 127.0.0.1 -> RemoteBranch, relative stacked-on URLs
+      so that every fallback is a RemoteRepository).  What each repository stores itself is read back from the
+      real repositories and handed to the model.  Locally every query must equal the plain model.  Through the
+      server get_rev_id / one-component dotted numbers are answered by the model of
+      Repository.get_rev_id_for_revno + _iter_for_revno + the history-incomplete hand-over to the fallbacks
+      (Model/C22Remote.lean: walkFor, chainRevIdForRevno, remoteGetRevId) and revision_id_to_revno /
+      revision_id_to_dotted_revno by the model of the server-side walk without fallbacks (serverWalk: answer or
+      the refusal GhostRevisionsHaveNoRevno); everything else by the plain model, a refused specifier part is
+      not compared.  A probe at the start of the run finds out which variant of RemoteRepository.get_rev_id_for_revno
+      the tree has (gives up / goes on in the fallbacks when the server does not store the known revision) and
+      the model is asked for that variant.
 Oracle (independent of the model, from the raw parent dictionary): revno n is
 the n-th revision of the left-hand history and back; the revno map covers
 exactly the tip's ancestry, is injective, gives (k,) to the k-th mainline
@@ -32,7 +46,9 @@ every structured specifier denotes the revision its definition describes
 (number, negative number with clamping, dotted number = the external
 merge_sort numbering, last:, before: = left parent, revid:, tag:, ancestor: =
 unique LCA, mainline: = oldest left-hand revision having it as an ancestor)
-and in_history / as_revision_id agree.
+and in_history / as_revision_id agree.  For stacked / served branches the same definitions are evaluated; over the
+smart server an identifier -> number conversion may be refused, but not for a mainline revision the stacked
+repository stores itself, and a given answer must be right; number -> identifier must always be answered.
 
 Mutants this was built against (scratch worktree /var/tmp/wt-C22; all caught by the oracle with a
 concrete input unless noted; see report):
@@ -53,6 +69,21 @@ concrete input unless noted; see report):
   S1 (seeded by the coordinator) branch.dotted_revno_to_revision_id: reverse-cache entry written after the internal
      read lock is released -> stale dotted revno on a long-lived Branch object; caught by the sequence stream
      (specifiers resolved without an outer lock, tip moved through another object, all conversions re-checked)
+  S2 (seeded by the coordinator) repository.Repository.get_rev_id_for_revno: `earliest_revno = known_revno -
+     distance_from_known + 1` on the history-incomplete path -> wrong revision for revnos two or more below the stacking
+     point of a stacked branch served by the smart server; caught by stream (c) (get_rev_id, dotted (n,), specifiers)
+  R2 repository.get_rev_id_for_revno: the missing revision is not appended to the partial history -> NoSuchRevision
+     from the fallback (stream (c))
+  R3 remote.RemoteRepository.get_rev_id_for_revno: `known_pair = (known_pair[0], response[2])` (client keeps its own
+     revno) -> wrong answers / NoSuchRevision below the stacking point (stream (c))
+  R8 smart/branch.SmartServerBranchRequestRevisionIdToRevno: GhostRevisionsHaveNoRevno answered as NoSuchRevision
+     -> "not on the mainline" for mainline revisions below the stacking point (stream (c), oracle + model)
+  R9 remote.RemoteBranch.revision_id_to_revno: `len(response) == 2` -> `>= 2` -> a merged revision gets the first
+     component of its dotted revno as revno on an unstacked served branch (stream (c), unstacked layout)
+  H2 harmless: `earliest_revno = known_revno - (len(partial_history) - 1)` -> clean
+Finding of stream (c) on the unchanged tree (family remote-stacked-known-revision-only-in-fallback): a freshly stacked
+branch (its tip lives in the fallback only) served by the smart server answers NoSuchRevision to every get_rev_id(n);
+Lean witness remote_get_rev_id_only_in_fallback_witness; repro and patch in /var/tmp/imp-C22.
 """
 import random
 
@@ -65,10 +96,20 @@ THEOREMS = [
     "dotted_roundtrip_of_coherent", "dotted_roundtrip_inv_of_coherent",
     "spec_neg", "spec_last", "spec_revid", "spec_tag", "spec_before", "spec_before_null",
     "spec_mainline", "spec_ancestor", "iter_sublist", "iter_exclude_include",
+    "iter_all", "iter_exclude_omits_stop",
+    # both entry points of a specifier; the fuel of the model
+    "in_history_as_revision_id_agree", "in_history_revno_coherent", "fuel_adequate",
+    "spec_revno_as_revision_id", "spec_last_as_revision_id", "spec_mainline_as_revision_id",
+    "spec_ancestor_as_revision_id",
+    # stacked branches served by the smart server (Model/C22Remote.lean)
+    "history_incomplete_pair", "remote_get_rev_id_partial", "remote_get_rev_id_fixed", "remote_get_rev_id_nth",
+    "remote_get_rev_id_only_in_fallback_witness", "remote_dotted_sound", "remote_revno_sound",
+    "remote_revno_answers_own",
 ]
 RULE = ("case = (history DAG, branch tip, tags, other branches, one query) or one answer of a long-lived branch object "
         "inside a sequence (specifiers resolved with / without an outer lock, the tip moved through another object, then all "
-        "number <-> id conversions); queries are enumerated per history "
+        "number <-> id conversions), or (history DAG, tip, stacking points on the mainline, local | smart server, one "
+        "query) for the stacked layouts; queries are enumerated per history "
         "(all revnos, all dotted revnos, all revids, all tags, nested before:/mainline:, sampled (start, stop, rule, "
         "direction) combinations); non-trivial = the tip's ancestry contains a merged (depth > 0) revision and the "
         "query does not end in an error; distinct by canonical (graph, tip, query)")
@@ -77,10 +118,18 @@ ASSUMPTIONS = [
     "behave as the Lean specifications mergeSort / findUniqueLca / findLefthandMerger (compared on every generated case)",
     "branch-level cases have no ghost as a left-most parent on the mainline (GhostRevisionsHaveNoRevno paths are not modelled); "
     "ghost left-most parents are covered for merge_sort itself",
+    "stacked layouts: 2a on 2a, linear chains of at most two fallbacks, stacking points on the mainline, every fallback "
+    "reached through the same smart server; over the smart server GhostRevisionsHaveNoRevno is a refusal, not an answer: "
+    "refused identifier -> number conversions (and specifier parts that need them) are counted and not compared",
+    "over the smart server specifier strings containing white space are not asked (a revision id with white space is not "
+    "a revision id and corrupts the client's next get_parent_map search recipe)",
     "specifier strings are ASCII without newline; a branch location after revno:N:, date:, branch:, submit:, annotate:, "
     "git:, svn: are out of scope (model answers E:Unsupported and the case is skipped)",
 ]
-TRUSTED = ["revision ids are modelled as topologically numbered naturals (creation order); tags and other branches as association lists"]
+TRUSTED = ["revision ids are modelled as topologically numbered naturals (creation order); tags and other branches as association lists",
+           "graph.iter_lefthand_ancestry (external, compiled) is specified by walkFor / serverWalk: it yields a revision only after "
+           "it found its parents and names the first missing one in RevisionNotPresent (compared on every stacked case); the "
+           "smart protocol itself (encoding, error translation) is exercised, not modelled"]
 
 NULL = b"null:"
 KNOWN_PREFIXES = {"revno:", "revid:", "last:", "before:", "tag:", "ancestor:", "mainline:", "date:", "branch:",
@@ -188,11 +237,23 @@ def hexs(s):
 
 ERRMAP = {"NoSuchRevision": "E:NoSuchRevision", "RevnoOutOfBounds": "E:RevnoOutOfBounds",
           "InvalidRevisionSpec": "E:InvalidRevisionSpec", "NoSuchTag": "E:NoSuchTag", "NoCommits": "E:NoCommits",
-          "NoCommonAncestor": "E:NoCommonAncestor"}
+          "NoCommonAncestor": "E:NoCommonAncestor",
+          # the smart server opens a stacked branch without its fallback repository and refuses
+          # identifier -> number conversions that need history below the stacking point
+          "GhostRevisionsHaveNoRevno": "E:Refused"}
+REFUSED = "E:Refused"
+
+
+INFRA_ERRORS = ("ConnectionError", "ConnectionReset", "ConnectionRefusedError", "ConnectionResetError", "BrokenPipeError",
+                "ConnectionTimeout", "SocketConnectionError", "TimeoutError", "timeout")
 
 
 def err(e):
-    return ERRMAP.get(type(e).__name__, "E:?" + type(e).__name__)
+    n = type(e).__name__
+    if n in INFRA_ERRORS:
+        # the loopback connection to the in-process smart server failed: not an answer of the code under test
+        raise env.InfraError("smart server connection: %s: %s" % (n, str(e)[:200]))
+    return ERRMAP.get(n, "E:?" + n)
 
 
 # --------------------------------------------------------------------------
@@ -212,6 +273,12 @@ def gen_world(rng, nmax):
         tip = n - 1
     else:
         tip = rng.randrange(n)
+    if tip is not None and rng.random() < 0.6:
+        # prefer a tip that has merged something: otherwise every dotted revno is a plain number
+        gi = GI(g)
+        merged = [x for x in range(n) if any(len([p for p in g[a] if p in g]) > 1 for a in gi.panc(x))]
+        if merged and tip not in merged:
+            tip = max(merged, key=lambda x: (len(gi.panc(x)), x)) if rng.random() < 0.5 else rng.choice(merged)
     nodes = list(range(n))
     tags = {}
     pool = ["t1", "rel-1.0", "7", "1.1.1", "-1", "r1", "x:y", "last:1"]
@@ -270,6 +337,221 @@ class World:
 
     def close(self):
         self.srv.stop_server()
+
+
+# --------------------------------------------------------------------------
+# stacked branches, opened locally and through the smart server
+
+FAMILY_ONLY_IN_FALLBACK = "remote-stacked-known-revision-only-in-fallback"
+
+
+STACK_KINDS = ["one", "two", "unstacked", "one", "two", "empty", "one", "two", "unstacked", "one", "two", "one"]
+
+
+def gen_stacked_world(rng, nmax, kind):
+    """a world whose main branch is stacked: w["stack"]["ks"] = the stacking points as mainline revnos, oldest
+    fallback first ([] = not stacked, only served remotely).  base<i> holds the ancestry of mainline revision
+    ks[i] that base<i-1> does not hold; main holds the rest.  kind: one / two levels, unstacked, or empty = a
+    repository of the chain holds nothing of the mainline (a freshly stacked branch)."""
+    best = None
+    for _ in range(6):
+        w = gen_world(rng, nmax)
+        if w["tip"] is None:
+            continue
+        L = len(GI(world_graph(w)).lefthand(w["tip"]))
+        if best is None or L > best[0]:
+            best = (L, w)
+        if L >= 5:
+            break
+    if best is None:
+        return None
+    L, w = best
+    if L < 2 or kind == "unstacked":
+        ks = []                                           # served remotely, not stacked
+    elif kind == "empty":
+        k = rng.randrange(1, L + 1)
+        ks = [L] if rng.random() < 0.6 else [k, k]
+    elif kind == "one" or L < 3:
+        ks = [rng.randrange(1, L)]
+    else:
+        ks = sorted(rng.sample(range(1, L), 2))
+    w["stack"] = dict(ks=ks)
+    return w
+
+
+def empty_segment(ks, L):
+    """some repository of the chain stores no mainline revision although older history remains"""
+    return bool(ks) and (ks[-1] >= L or len(set(ks)) < len(ks))
+
+
+class StackedWorld:
+    """the stacking chain base0 <- base1 <- … <- main of real 2a branches (each with its own repository) in a
+    memory directory served by breezy's SmartTCPServer on 127.0.0.1; built from the plain World's repository"""
+
+    def __init__(self, world, w):
+        from breezy import transport as T
+        from breezy.bzr.smart import server as S
+        from breezy.controldir import ControlDir, format_registry
+        from breezy.repository import Repository
+        from dromedary.memory import MemoryServer
+        g = world.g
+        ks = w["stack"]["ks"]
+        self.msrv = MemoryServer()
+        self.msrv.start_server()
+        self.tcp = None
+        self.url = self.msrv.get_url()
+        fmt = format_registry.make_controldir("2a")
+        src = world.open()
+        lh = GI(g).lefthand(w["tip"])
+        prev = None
+        levels = []
+        for lvl, k in enumerate(ks):
+            nm = "base%d" % lvl
+            b = ControlDir.create_branch_convenience(self.url + nm, format=fmt, force_new_tree=False)
+            if prev:
+                b.set_stacked_on_url("../" + prev)
+            b.pull(src, stop_revision=name(g, lh[k - 1]), overwrite=True)
+            prev = nm
+            levels.append(nm)
+        st = ControlDir.create_branch_convenience(self.url + "main", format=fmt, force_new_tree=False)
+        if prev:
+            st.set_stacked_on_url("../" + prev)
+        st.pull(src, stop_revision=name(g, w["tip"]), overwrite=True)
+        st.repository.fetch(src.repository)             # the revisions outside the tip's ancestry, too
+        for t, r in w["tags"].items():
+            st.tags.set_tag(t, r.encode())
+        for loc, tip in w["others"].items():
+            o = ControlDir.create_branch_convenience(self.url + loc, format=fmt, force_new_tree=False)
+            o.pull(src, stop_revision=NULL if tip is None else name(g, tip), overwrite=True)
+        # what each repository stores itself (opened without fallbacks), the stacked one first
+        self.chain = []
+        for nm in ["main"] + levels[::-1]:
+            r = Repository.open(self.url + nm)
+            if r._fallback_repositories:
+                raise env.InfraError("Repository.open attached fallbacks")
+            self.chain.append(sorted(int(x[1:]) for x in r.all_revision_ids()))
+        try:
+            self.tcp = S.SmartTCPServer(T.get_transport(self.url), client_timeout=300)
+            self.tcp.start_server("127.0.0.1", 0)
+            self.tcp.start_background_thread("-c22")
+        except OSError as e:
+            raise env.InfraError("smart server: %s" % e)
+        self.rurl = self.tcp.get_url()
+
+    def open(self, via):
+        from breezy.branch import Branch
+        b = Branch.open((self.url if via == "local" else self.rurl) + "main")
+        if (type(b).__name__ == "RemoteBranch") != (via == "remote"):
+            raise env.InfraError("opened %r for via=%s" % (b, via))
+        return b
+
+    def close(self):
+        try:
+            if self.tcp is not None:
+                self.tcp.stop_background_thread()
+        finally:
+            self.msrv.stop_server()
+
+
+class _Loc:
+    def __init__(self, url):
+        self.url = url
+
+
+def enc_chain(chain):
+    return "|".join(",".join(map(str, r)) or "-" for r in chain)
+
+
+def stacked_model_line(w, q, via, chain, fx):
+    """a RemoteBranch computes number <-> identifier conversions from repositories opened without fallbacks
+    (model: Model/C22Remote.lean); everything else, and everything on a locally opened stacked branch, is the
+    plain model"""
+    if via == "remote":
+        p = model_prefix(w)
+        k = q[0]
+        if k == "getrevid":
+            return "%s rgetrevid %s %s %d" % (p, "T" if fx else "F", enc_chain(chain), q[1])
+        if k == "d2id":
+            return "%s rd2id %s %s %s" % (p, "T" if fx else "F", enc_chain(chain), q[1])
+        if k in ("id2revno", "id2d"):
+            return "%s r%s %s %s" % (p, k, enc_chain(chain), hexs(q[1]))
+    return model_line(w, q)
+
+
+def stacked_queries(w, rng, per, narrow, via="local"):
+    qs = gen_queries(w, rng, per)
+    if via == "remote":
+        # a specifier with white space can end up as a revision id with white space (revid:, prefix-less form); such an
+        # id is not a revision id, and once the client has recorded it as missing it corrupts the space-separated search
+        # recipe of the next Repository.get_parent_map request (the server then answers a bare NoSuchRevision)
+        qs = [q for q in qs if not (q[0] == "spec" and any(c in q[1] for c in " \t\r\x0b\x0c"))]
+    if narrow:
+        # a repository of the chain stores none of the mainline: only the number -> identifier conversions
+        qs = [q for q in qs if q[0] == "getrevid" or (q[0] == "d2id" and "." not in q[1])]
+    return qs
+
+
+def run_stacked(world, w, gi, facts, rng, per, fx):
+    """-> (chain, [(via, q, impl string, oracle failures, family)])"""
+    g = gi.g
+    ks = w["stack"]["ks"]
+    lh = facts["lh"]
+    L = len(lh)
+    narrow = empty_segment(ks, L)
+    sw = StackedWorld(world, w)
+    out = []
+    try:
+        # the mainline revisions the stacked repository stores itself: the server must answer for these
+        top = set(sw.chain[0])
+        own = set()
+        for x in lh[::-1]:
+            if x not in top:
+                break
+            own.add(name(g, x))
+        for via in (["local", "remote"] if ks else ["remote"]):
+            qs = stacked_queries(w, random.Random(w["qseed"] ^ (1 if via == "remote" else 2)), per, narrow, via)
+            b = sw.open(via)
+            loc = _Loc(sw.url if via == "local" else sw.rurl)
+            with b.lock_read():
+                for q in qs:
+                    s, res = run_query(loc, b, q)
+                    fails, fam = stacked_oracle(w, gi, facts, q, res, via, ks, own)
+                    out.append((via, q, s, fails, fam))
+    finally:
+        sw.close()
+    return sw.chain, out
+
+
+def stacked_oracle(w, gi, facts, q, res, via, ks, own):
+    """the definitions of `oracle` hold for a stacked branch as they do for a plain one.  Through the smart server
+    an identifier -> number conversion may be REFUSED (GhostRevisionsHaveNoRevno: the server cannot see below the
+    stacking point) — but never for a mainline revision the stacked repository stores itself, and an answer that
+    is given must be right."""
+    k = q[0]
+    L = len(facts["lh"])
+    refused = lambda r: isinstance(r, Exception) and err(r) == REFUSED
+    if via == "remote":
+        if k in ("id2revno", "id2d") and refused(res):
+            if q[1].encode() in own:
+                return (["%s(%r) is refused over the smart server although the stacked repository itself stores the "
+                         "mainline down to that revision" % (k, q[1])], None)
+            return [], None
+        if k == "spec":
+            a, c = res
+            if a == ("err", REFUSED) and c == ("err", REFUSED):
+                return [], None
+            if a == ("err", REFUSED):
+                res = (None, c)
+            elif c == ("err", REFUSED):
+                res = (a, None)
+    fails = oracle(w, gi, facts, q, res)
+    fam = None
+    if fails and via == "remote" and empty_segment(ks, L) and isinstance(res, Exception) \
+            and type(res).__name__ == "NoSuchRevision":
+        n = q[1] if k == "getrevid" else int(q[1]) if (k == "d2id" and "." not in q[1]) else None
+        if n is not None and 1 <= n <= L:
+            fam = FAMILY_ONLY_IN_FALLBACK
+    return fails, fam
 
 
 def model_prefix(w):
@@ -358,7 +640,14 @@ def gen_queries(w, rng, per):
     specs += lvl1
     specs += [(rng.choice(["before", "mainline"]), s) for s in lvl1 if rng.random() < 0.25]
     if len(specs) > per["spec"]:
-        specs = rng.sample(specs, per["spec"])
+        # the rare kinds (there are only a few tags / other branches per world) are always kept
+        def rare(st):
+            while st[0] in ("before", "mainline", "revno"):
+                st = st[1]
+            return st[0] in ("ancestor", "tag")
+        keep = [st for st in specs if rare(st)][:per["spec"] // 3]
+        rest = [st for st in specs if not rare(st)]
+        specs = keep + rng.sample(rest, min(len(rest), per["spec"] - len(keep)))
     for st in specs:
         qs.append(("spec", spec_str(st), st))
     # malformed stream: mutations of valid strings, plus fixed oddities
@@ -465,6 +754,8 @@ def run_query(world, b, q):
                 c = ("err", err(e))
                 sc = err(e)
             return sa + " " + sc, (a, c)
+    except env.InfraError:
+        raise
     except Exception as e:
         return err(e), e
     raise ValueError(q)
@@ -648,20 +939,19 @@ def oracle(w, gi, facts, q, res):
             exp = None
         except NoOpinion:
             return bad
+        # a part that is None was refused by the smart server (stacked_oracle) and is not judged
         if exp is None:
-            if c[0] == "ok" or a[0] == "ok":
+            if (c is not None and c[0] == "ok") or (a is not None and a[0] == "ok"):
                 bad.append("specifier %r resolved to %r / %r although it names no revision" % (q[1], a, c))
         else:
             present = exp == NULL or (exp.startswith(b"r") and exp[1:].isdigit() and int(exp[1:]) in g)
-            inner_absent = False
-            if st[0] == "before":
-                # in_history looks the inner revision up in the repository
-                inner_absent = False
-            if c != ("ok", exp):
+            if c is not None and c != ("ok", exp):
                 bad.append("as_revision_id(%r) = %r, the definition gives %r" % (q[1], c, exp))
             names = [name(g, x) for x in lh]
             exprevno = 0 if exp == NULL else names.index(exp) + 1 if exp in names else None
-            if present:
+            if a is None:
+                pass
+            elif present:
                 if a[0] != "ok" or a[2] != exp:
                     bad.append("in_history(%r) = %r, the definition gives %r" % (q[1], a, exp))
                 elif a[1] != exprevno:
@@ -670,7 +960,7 @@ def oracle(w, gi, facts, q, res):
                 bad.append("in_history(%r) = %r for a revision that is not in the repository" % (q[1], a))
     elif k == "spec":
         a, c = res
-        if a[0] == "ok" and c[0] == "ok" and a[2] != c[1]:
+        if a is not None and c is not None and a[0] == "ok" and c[0] == "ok" and a[2] != c[1]:
             bad.append("in_history(%r) and as_revision_id disagree: %r / %r" % (q[1], a, c))
     return bad
 
@@ -751,7 +1041,7 @@ def oracle_iter(w, gi, facts, q, res):
 # --------------------------------------------------------------------------
 
 def run_world(args):
-    w, per = args
+    w, per, fx = args
     rng = random.Random(w["qseed"])
     g = world_graph(w)
     gi = GI(g)
@@ -770,6 +1060,16 @@ def run_world(args):
     )
     world = World(w)
     out = []
+    if w.get("stack") is not None:
+        # the same history as a stacking chain, opened locally and through the smart server
+        try:
+            chain, sres = run_stacked(world, w, gi, facts, rng, per, fx)
+        except (ConnectionError, TimeoutError) as e:
+            raise env.InfraError("smart server connection: %r" % (e,))
+        finally:
+            world.close()
+        return dict(w=w, merged=any(x.merge_depth > 0 for x in ms), results=[], steps=[], seq=[], chain=chain,
+                    stacked=sres, fx=fx)
     try:
         b = world.open()
         b.lock_read()
@@ -965,6 +1265,51 @@ def _consume(ctx, r):
     return cases, lines, impls
 
 
+def _spec_parts_refused(impl, model):
+    """a specifier part the smart server refused (identifier -> number below the stacking point) is not compared:
+    take the model's part"""
+    i, m = impl.split(" "), model.split(" ")
+    if len(i) == 2 and len(m) == 2:
+        return " ".join(m[j] if i[j] == REFUSED else i[j] for j in range(2))
+    return impl
+
+
+def _consume_stacked(ctx, r, deferred):
+    w = r["w"]
+    ks = w["stack"]["ks"]
+    L = len(GI(world_graph(w)).lefthand(w["tip"]))
+    kind = "unstacked" if not ks else "empty-segment" if empty_segment(ks, L) else "levels:%d" % len(ks)
+    ctx.count("stacked-world:" + kind)
+    cases, lines, impls = [], [], []
+    for via, q, s, fails, fam in r["stacked"]:
+        case = dict(g=w["g"], tip=w["tip"], tags=w["tags"], others=w["others"], stack=dict(ks=ks, via=via), q=list(q))
+        for f in fails:
+            what = "%s branch %s: %s" % ("stacked (mainline revnos %r)" % (ks,) if ks else "unstacked",
+                                         "served by the smart server" if via == "remote" else "opened locally", f)
+            if fam is None:
+                ctx.violation(case, what, family=None)
+            else:
+                deferred.append((case, what, fam))
+        ctx.case(dict(g=w["g"], tip=w["tip"], ks=ks, via=via, q=list(q[:2]) + [repr(x) for x in q[2:]]),
+                 nontrivial=r["merged"] and not s.startswith("E:") and " E:" not in s)
+        ctx.count("stacked-%s-q:%s" % (via, q[0]))
+        if REFUSED in s:
+            ctx.count("stacked-%s-refused:%s" % (via, q[0]))
+        elif q[0] == "spec":
+            for part in s.split(" "):
+                if part.startswith("E:"):
+                    ctx.count("stacked-%s-spec-%s" % (via, part))
+        elif s.startswith("E:"):
+            ctx.count("stacked-%s-%s-%s" % (via, q[0], s))
+        if via == "remote" and q[0] == "getrevid" and ks and 1 <= q[1] <= L:
+            d = ks[-1] - q[1]
+            ctx.count("stacked-remote-getrevid-below-stacking-point:%s" % ("no" if d <= 0 else "1" if d == 1 else "2+"))
+        cases.append(case)
+        lines.append(stacked_model_line(w, q, via, r["chain"], r["fx"]))
+        impls.append(s)
+    return cases, lines, impls
+
+
 def _consume_seq(ctx, w, steps, seq, merged):
     cases, lines, impls = [], [], []
     case = dict(g=w["g"], tip=w["tip"], tags=w["tags"], others=w["others"], q=["seq", steps])
@@ -995,19 +1340,52 @@ def run_corpus(ctx):
             ctx.mismatch(case, r["impl"], r["model"], line="corpus:" + os.path.basename(f))
 
 
+PROBE = dict(g={"0": [], "1": [0], "2": [1]}, tip=2, tags={}, others={}, qseed=0, stack=dict(ks=[3]))
+
+
+_PROBED = {}
+
+
+def probe_fx(ctx, deferred):
+    """which variant of RemoteRepository.get_rev_id_for_revno the tree implements: a freshly stacked branch (its
+    tip lives in the fallback only) served by the smart server.  The probe is an oracle case too."""
+    if "r" in _PROBED:
+        return _PROBED["r"]["fx"], _PROBED["r"]
+    r = run_world((PROBE, dict(iter=0, spec=0, malformed=0), False))
+    _PROBED["r"] = r
+    answers = {q[1]: s for via, q, s, fails, fam in r["stacked"] if via == "remote" and q[0] == "getrevid" and 1 <= q[1] <= 3}
+    # anything but three answers is the "gives up" variant for the model; wrong or odd answers are reported by the
+    # oracle / the correspondence like those of every other case
+    fx = len(answers) == 3 and all(not a.startswith("E:") for a in answers.values())
+    ctx.count("probe-fx:%s" % fx)
+    ctx.extra["remote_get_rev_id_for_revno_variant"] = "continues-in-fallbacks" if fx else "gives-up-when-known-revision-is-not-stored"
+    r["fx"] = fx
+    return fx, r
+
+
 def run(ctx, nworlds=None):
     import os
     os.chdir(env.scratch())       # a prefix-less specifier may be tried as a relative branch location
     check_plugins(ctx)
     run_corpus(ctx)
     pure_merge_sort(ctx, ctx.pick(1200, 12000))
-    nworlds = nworlds or ctx.pick(44, 400)
+    deferred = []                 # violations of a named family: reported after every other violation
+    fx, probe = probe_fx(ctx, deferred)
+    nworlds = nworlds or ctx.pick(40, 400)
     per = dict(iter=ctx.pick(40, 120), spec=ctx.pick(140, 400), malformed=ctx.pick(14, 40))
+    sper = dict(iter=ctx.pick(6, 20), spec=ctx.pick(36, 100), malformed=ctx.pick(4, 10))
     nmax = ctx.pick(12, 14)
     worlds = [gen_world(ctx.rng, nmax) for _ in range(nworlds)]
-    results = ctx.pmap(run_world, [(w, per) for w in worlds], chunksize=1)
+    stacked = [gen_stacked_world(ctx.rng, nmax, STACK_KINDS[i % len(STACK_KINDS)])
+               for i in range(ctx.pick(12, 120) if nworlds != 150 else 48)]
+    stacked = [w for w in stacked if w is not None]
+    results = ctx.pmap(run_world, [(w, sper, fx) for w in stacked] + [(w, per, fx) for w in worlds], chunksize=1)
     cases, lines, impls = [], [], []
-    for r in results:
+    for r in [probe] + results:
+        if "stacked" in r:
+            c, l, i = _consume_stacked(ctx, r, deferred)
+            cases += c; lines += l; impls += i
+            continue
         ctx.count("world-size:%d" % (len(r["w"]["g"]) // 3 * 3))
         ctx.count("world-merged" if r["merged"] else "world-linear")
         c, l, i = _consume(ctx, r)
@@ -1020,8 +1398,12 @@ def run(ctx, nworlds=None):
             ctx.count("model-unsupported")
             continue
         ctx.traces += 1
+        if REFUSED in i and c.get("stack", {}).get("via") == "remote" and c["q"][0] == "spec":
+            i = _spec_parts_refused(i, m)
         if i != m:
             ctx.mismatch(c, i, m, line=l)
+    for case, what, fam in deferred:
+        ctx.violation(case, what, family=fam)
 
 
 def widen(ctx):
@@ -1037,6 +1419,8 @@ def replay(ctx, case):
         m = ctx.model(["ms %s %d" % (enc_graph(g), case["tip"])])[0]
         return dict(impl=impl, model=m, agree=impl == m)
     w = dict(g=case["g"], tip=case["tip"], tags=case["tags"], others=case["others"], qseed=0)
+    if case.get("stack") is not None:
+        return replay_stacked(ctx, case, w)
     if case["q"][0] == "seq":
         steps = case["q"][1]
         world = World(w)
@@ -1074,6 +1458,49 @@ def replay(ctx, case):
         ctx.violation(case, f)
     m = ctx.model([model_line(w, q)])[0]
     return dict(query=list(q[:2]), impl=s, model=m, agree=(s == m or "E:Unsupported" in m), oracle_failures=fails)
+
+
+def replay_stacked(ctx, case, w):
+    via = case["stack"]["via"]
+    w["stack"] = dict(ks=case["stack"]["ks"])
+    q = case["q"]
+    q = tuple(q[:2]) + tuple(_detuple(x) for x in q[2:])
+    g = world_graph(w)
+    gi = GI(g)
+    from vcsgraph.known_graph import KnownGraph
+    ms = list(KnownGraph({k: tuple(v) for k, v in g.items()}).merge_sort(w["tip"]))
+    facts = dict(lh=gi.lefthand(w["tip"]), numbering={x.key: tuple(x.revno) for x in ms}, anc=gi.panc(w["tip"]),
+                 full=[(name(g, x.key), x.merge_depth, tuple(x.revno), x.end_of_merge) for x in ms])
+    fx, _ = probe_fx(ctx, [])
+    world = World(w)
+    try:
+        sw = StackedWorld(world, w)
+        try:
+            top = set(sw.chain[0])
+            own = set()
+            for x in facts["lh"][::-1]:
+                if x not in top:
+                    break
+                own.add(name(g, x))
+            b = sw.open(via)
+            with b.lock_read():
+                s, res = run_query(_Loc(sw.url if via == "local" else sw.rurl), b, q)
+            fails, fam = stacked_oracle(w, gi, facts, q, res, via, w["stack"]["ks"], own)
+            chain = sw.chain
+        finally:
+            sw.close()
+    finally:
+        world.close()
+    ks = w["stack"]["ks"]
+    fails = ["%s branch %s: %s" % ("stacked (mainline revnos %r)" % (ks,) if ks else "unstacked",
+                                   "served by the smart server" if via == "remote" else "opened locally", f) for f in fails]
+    for f in fails:
+        ctx.violation(case, f, family=fam)
+    line = stacked_model_line(w, q, via, chain, fx)
+    m = ctx.model([line])[0]
+    s2 = _spec_parts_refused(s, m) if (q[0] == "spec" and via == "remote") else s
+    return dict(query=list(q[:2]), via=via, chain=chain, impl=s, model=m, model_line=line,
+                agree=(s2 == m or "E:Unsupported" in m), oracle_failures=fails)
 
 
 def _detuple(x):
